@@ -25,11 +25,11 @@ pub fn def() -> PropDef {
     PropDef {
         id: "C12",
         level: "model_checking",
-        rule: "every sequence of length <= d over {local insert a / ab, local delete a, remote insert valid / superseded / invalid signature, next message of a reconciliation session with a real peer replica (local writes may fall between two messages of the session and obsolete entries the peer sends later), subscribe, unsubscribe i, drop receiver i, set download policy p} through the real SyncHandle with up to 3 subscribers; after every acknowledged request every live receiver is drained and compared with the exact expected event list of the reference model (one event per applied entry, in application order, local vs remote with peer and content status as sent, should_download per policy); get_state().subscribers must equal the model; non-trivial = sequences in which an event is delivered to at least one subscriber",
+        rule: "every sequence of length <= d over {local insert a / ab, local delete a, remote insert valid / superseded / invalid signature, next message of a reconciliation session with a real peer replica (local writes may fall between two messages of the session and obsolete entries the peer sends later), subscribe, unsubscribe i, drop receiver i, set download policy p} through the real SyncHandle, starting with three subscribers (one registered by open, two by subscribe) and up to four; after every acknowledged request every live receiver is drained and compared with the exact expected event list of the reference model (one event per applied entry, in application order, local vs remote with peer and content status as sent, should_download per policy); get_state().subscribers must equal the model; non-trivial = sequences in which an event is delivered to at least one subscriber",
         assumptions: &["events are compared after the request that causes them has been acknowledged (the actor sends events before it replies), so draining with try_recv is race-free"],
         bound: |t| match t {
-            Tier::Quick => json!({"depth": 4, "alphabet": 17}),
-            Tier::Thorough => json!({"depth": 5, "alphabet": 17}),
+            Tier::Quick => json!({"depth": 4, "alphabet": 19}),
+            Tier::Thorough => json!({"depth": 5, "alphabet": 19}),
         },
         run,
         replay,
@@ -63,10 +63,10 @@ fn alphabet() -> Vec<Ev> {
         Ev::SyncStep,
         Ev::Subscribe,
     ];
-    for i in 0..3 {
+    for i in 0..4 {
         v.push(Ev::Unsub(i));
     }
-    for i in 0..3 {
+    for i in 0..4 {
         v.push(Ev::DropRx(i));
     }
     for p in 0..3 {
@@ -188,6 +188,17 @@ fn exec(seq: &[Ev]) -> Option<(Bad, String, bool)> {
         rx: Some(rx0),
         registered: true,
     }];
+    // two more through SyncHandle::subscribe, so that churn among three subscribers is within
+    // reach of short sequences
+    for _ in 0..2 {
+        let (tx, rx) = async_channel::unbounded();
+        block_on_park(h.subscribe(ns, tx.clone())).expect("subscribe");
+        subs.push(Sub {
+            tx,
+            rx: Some(rx),
+            registered: true,
+        });
+    }
     let mut pol = 0u8;
     // reconciliation session with a real peer
     let mut peer = Sut::memory_with(&[0]);
@@ -314,7 +325,7 @@ fn exec(seq: &[Ev]) -> Option<(Bad, String, bool)> {
                 }
             }
             Ev::Subscribe => {
-                if subs.len() >= 3 {
+                if subs.len() >= 4 {
                     return None;
                 }
                 let (tx, rx) = async_channel::unbounded();
@@ -416,7 +427,7 @@ fn run(ctx: &Ctx, report: &mut Report) {
             }
             let seq: Vec<Ev> = idx.iter().map(|&i| alpha[i]).collect();
             // cheap static pruning of sequences that are never enabled
-            let mut nsubs = 1;
+            let mut nsubs = 3;
             for e in &seq {
                 match e {
                     Ev::Subscribe => nsubs += 1,
